@@ -67,6 +67,7 @@ def cases(tier, seed):
     yield dict(kind='files-bad-stext', tier=tier)
     yield dict(kind='files-empty-stext', tier=tier)
     yield dict(kind='files-raw-analysis', tier=tier)
+    yield dict(kind='files-bigoffsets', tier=tier)
     for delim in '/|\\, *~:;!#%&()+-.<=>?@[]^_`{}\'"' + 'aZ':   # not '$': standard keywords start with it
         yield dict(kind='files', delim=delim, tier=tier)
 
@@ -76,10 +77,19 @@ def bounds(tier, seed):
             'dictionary_string_length': 2 if tier == 'quick' else 3}
 
 
-def call(s, supp, delim=D, context=False):
+def call(s, supp, delim=D, context=False, onepast=False):
     import FlowCal
     b = s.encode('latin-1')
     off = 0
+    if onepast:
+        # the segment is the last thing in the file and its end offset is written one past its last byte (the tolerated convention)
+        with warnings.catch_warnings(record=True) as w:
+            warnings.simplefilter('always')
+            try:
+                t, dl = FlowCal.io.read_fcs_text_segment(io.BytesIO(b), 0, len(b), delim=delim if supp else None, supplemental=supp)
+                return 'ok', t, len(w)
+            except Exception as e:
+                return 'err', type(e).__name__, len(w)
     if context:
         # the same segment inside a larger file: other bytes (a delimiter among them) right before and right after it
         dl_ = delim.encode('latin-1')
@@ -100,6 +110,12 @@ def judge(res, s, supp, delim=D):
     out, val, nwarn = call(s, supp, delim)
     one = dict(kind='one', s=s, supp=supp, delim=delim)
     nontriv = s.count(delim) > 1
+    if s:
+        op = call(s, supp, delim, onepast=True)
+        if op != (out, val, nwarn):
+            res.violation('end-convention:%s' % ('supp' if supp else 'primary'),
+                          'segment %r at the end of the file reads as %r with its end offset on its last byte and as %r with the end offset one past it (the tolerated convention)' % (s, (out, val), op[:2]), one)
+            return
     ctx = call(s, supp, delim, context=True)
     if ctx != (out, val, nwarn):
         res.violation('context-dependent:%s' % ('supp' if supp else 'primary'),
@@ -315,6 +331,20 @@ def run_case(c):
             res.violation('file-bad-stext:loaded', 'a file whose supplemental TEXT segment is %r (cannot be split into keyword/value pairs) was loaded; keywords beyond the primary ones: %r' % (
                 sraw, {k_: v for k_, v in dd.text.items() if k_ not in dict(info['primary_pairs'])}), one)
         res.sample({'ill-formed supplemental segments': len(bads), 'alphabet': '/ a b'})
+        return res
+    if k == 'files-bigoffsets':
+        # offsets of 10,000,000 and more fill all eight columns of a HEADER field (no blank between neighbouring fields): the ANALYSIS
+        # segment begins just below that mark and ends above it, or lies entirely above it
+        for version in ('FCS2.0', 'FCS3.0'):
+            for target in (9999995, 10000000, 12345678):
+                for which in ('analysis', 'data'):
+                    lay = dict(version=version, datatype='I', byteord='1,2,3,4', bits=[16, 16], ranges=[1024, 1024], events=[[1, 2], [3, 4]], delim=D,
+                               extra=[('K1', 'v1')], analysis=[('GATE1', '12.5'), ('region/1', 'P1/')], analysis_offsets='header')
+                    _, info0 = fcsgen.build(dict(lay))
+                    base0 = info0['analysis'][0] if which == 'analysis' else info0['data_begin']
+                    lay['pad_before'] = {which: target - base0}
+                    judge_file(res, lay, dict(kind='file', layout=lay))
+        res.sample({'offsets': [9999995, 10000000, 12345678], 'segments': ['analysis', 'data']})
         return res
     if k == 'files-raw-analysis':
         # every short byte string over {primary delimiter, another delimiter-like symbol, a letter} as the ANALYSIS segment of a file: read
